@@ -318,6 +318,7 @@ def run_c08(ctx):
         ctx.traces_validated += 1
     merge_partial_fields_stream(ctx, 150 if q else 4000, merge)
     merge_narrow_index_stream(ctx, 10 if q else 200, merge)
+    merge_geometry_stream(ctx, 120 if q else 3000, merge)
     vals = ctx.coq_eval(HEADER, exprs, name="c08chk")
     for (kind, canon, pmap), v in zip(metas, vals):
         ctx.tie(f"T3 {kind}")
@@ -474,6 +475,68 @@ def merge_partial_fields_stream(ctx, n, merge):
         ctx.tie("T2 merge with differing point-field sets = zero-fill specification")
         if bad:
             ctx.violation("E4", "merge of pieces with different point-field sets: " + bad, canon, only_in_first=only1, only_in_second=only2)
+        ctx.traces_validated += 1
+
+
+def merge_geometry_stream(ctx, n, merge):
+    """split + merge on coordinates that are not a tidy lattice: rotated meshes (columns equal only up to rounding noise) and
+    meshes with two DISTINCT points closer to each other than the mesh tolerance (a thin fracture): shared points are the
+    bit-identical ones — nothing else may be fused, nothing may be kept twice"""
+    import math
+    rng = ctx.rng
+    for it in range(n):
+        M = G.add_fields(rng, G.gen_mesh(rng, max_cells=6), kinds=("scalar", "int"))
+        if G.has_coincident_points(M) or M["dim"] < 2:
+            continue
+        variant = rng.choice(["rotated", "rotated", "near-coincident", "rotated+near-coincident"])
+        if "rotated" in variant:
+            ang = rng.choice([-math.pi / 2, math.pi / 4, math.pi / 2, 0.3, 2.0])
+            c_, s_ = math.cos(ang), math.sin(ang)
+            for p in M["pts"]:
+                x, y = float(p[0]), float(p[1])
+                p[0], p[1] = Fr(c_ * x - s_ * y), Fr(s_ * x + c_ * y)
+        if "near-coincident" in variant:
+            cells = [(bi, j) for bi, (t, rows) in enumerate(M["blocks"]) for j in range(len(rows))]
+            bi, j = rng.choice(cells)
+            row = M["blocks"][bi][1][j]
+            a = rng.randrange(len(row))
+            old = row[a]
+            scale = max(max(abs(x) for x in p) for p in M["pts"]) or Fr(1)
+            newp = list(M["pts"][old])
+            d_ = rng.randrange(M["dim"])
+            newp[d_] = Fr(float(newp[d_] + scale * Fr(1, 2 ** 28)))        # ~4e-9 of the mesh size: below the default tolerance
+            if any(tuple(newp) == tuple(p) for p in M["pts"]):
+                continue
+            M["pts"].append(newp)
+            for k in M["pf"]:
+                proto = M["pf"][k][old]
+                M["pf"][k].append(proto + 1 if not isinstance(proto, list) else [v + 1 for v in proto])
+            row[a] = len(M["pts"]) - 1
+        canon = {"mesh": json_mesh(M), "variant": variant}
+        try:
+            with quiet():
+                warnings.simplefilter("ignore")
+                g = split_and_merge(rng, G.to_fieldcompare(M), merge)
+                if g is None:
+                    continue
+                after = G.content(G.from_fieldcompare(g))
+        except InputModified as e:
+            ctx.violation("E4", str(e), canon)
+            continue
+        except Exception as e:  # noqa: BLE001
+            ctx.case(canon, True)
+            ctx.violation("E4", f"split + merge raised {type(e).__name__}: {e} ({variant})", canon)
+            continue
+        ctx.case(canon, True, sample={"variant": variant, "points": len(M["pts"])})
+        ctx.count(f"c08 merge geometry:{variant}")
+        npts_after = len(G.from_fieldcompare(g)["pts"])
+        used = len({c for _, rows in M["blocks"] for r in rows for c in r})
+        if after != G.content(M):
+            ctx.violation("E4", f"split + merge changed the data set as a geometric object ({variant}: {used} connected points before, "
+                                f"{npts_after} points after)", canon)
+        elif npts_after != used:
+            ctx.violation("E4", f"split + merge keeps {npts_after} points for {used} connected points ({variant}): a shared point is "
+                                "stored twice or distinct points were fused", canon)
         ctx.traces_validated += 1
 
 
@@ -652,9 +715,13 @@ def stage_exprs(stages):
 def gen_pair_equal(rng, noise=True):
     M = G.add_fields(rng, G.gen_mesh(rng), kinds=("scalar", "vector", "int"))
     flavour = []
-    if rng.random() < 0.2:
+    r_ = rng.random()
+    if r_ < 0.2:
         G.make_discontinuous(rng, M)
         flavour.append("discontinuous")
+    elif r_ < 0.4 and G.make_interface(rng, M):
+        flavour.append("discontinuous")          # (coincident points along an internal interface, several cells per copy)
+        flavour.append("interface")
     N, perm, cperms = G.relabel(rng, M)
     if rng.random() < 0.35:
         G.add_orphans(rng, M)
@@ -971,6 +1038,7 @@ def run_c03(ctx):
             ctx.traces_validated += 1
     reused_reference_stream(ctx, 60 if q else 1500)
     changed_in_place_stream(ctx, 60 if q else 1500)
+    structured_modification_stream(ctx, 150 if q else 4000)
     compat_twins_stream(ctx, 60 if q else 1500)
     run_stage_batch(ctx, stage_batch)
     run_ladder_batch(ctx, ladder_batch)
@@ -1026,6 +1094,48 @@ def reused_reference_stream(ctx, n):
                 ctx.violation("E4", f"comparison against a reference object that already served an earlier comparison PASSES although "
                                     f"the data sets differ ({desc[0]})", canon, impl=res)
                 break
+        ctx.traces_validated += 1
+
+
+def structured_modification_stream(ctx, n):
+    """image / rectilinear / structured grids (as read from .vti / .vtr / .vts) with one changed ordinate, origin, spacing or
+    position along a flat direction on one side: the comparison of the field data must fail whenever the points differ by
+    more than the tolerance, in both roles"""
+    from fieldcompare.mesh import MeshFields
+    rng = ctx.rng
+    for it in range(n):
+        try:
+            with quiet():
+                warnings.simplefilter("ignore")
+                canon, a, b, P1, P2 = structured_variants(rng)
+        except Exception:  # noqa: BLE001
+            continue
+        if canon["changed"] is None or canon["changed"][0] == "spacing-below-tolerance":
+            continue
+        worst = max((abs(x - y) for p, r in zip(P1, P2) for x, y in zip(p, r)), default=Fr(0))
+        mxc = max([abs(x) for p in P1 + P2 for x in p] + [Fr(0)])
+        try:
+            with quiet():
+                warnings.simplefilter("ignore")
+                rel, ab = tol_of(a)
+                relb, abb = tol_of(b)
+                thr = max(max(rel, relb) * mxc, max(ab, abb))
+                if worst <= 4 * thr:
+                    continue
+                n_pts = len(P1)
+                fa = MeshFields(a, {"u": np.arange(float(n_pts))}, {})
+                fb = MeshFields(b, {"u": np.arange(float(n_pts))}, {})
+                role = rng.choice(["changed_is_reference", "changed_is_source"])
+                res = compare_impl(fa, fb) if role == "changed_is_reference" else compare_impl(fb, fa)
+        except Exception as e:  # noqa: BLE001
+            ctx.violation("E4", f"comparison of structured grids raised {type(e).__name__}: {e}", canon)
+            continue
+        canon = dict(canon, role=role)
+        ctx.case(canon, True, sample={"case": {k: canon[k] for k in ("kind", "extents", "changed", "role")}, "impl": res})
+        ctx.count(f"c03:structured:{canon['kind']}:{canon['changed'][0]}")
+        if res["bool"]:
+            ctx.violation("E4", f"comparison of two {canon['kind']} grids PASSES although their points differ by {float(worst):.3g} "
+                                f"(tolerance {float(thr):.3g}): changed {canon['changed']}", canon, impl=res)
         ctx.traces_validated += 1
 
 
